@@ -223,6 +223,21 @@ CLAIMED = {
              "primitives is not claimed.",
         technique="Rocq proof (soundness of the device's decision procedure over received bytes) + differential correspondence with a man in the middle",
         design="4 (C01), 9"),
+    "C19": dict(
+        text="Machine-checked theorems for ANY interleaving of the atomic requests of any number of sessions: a request that does not present a "
+             "session's token leaves that session untouched (handle_frame), the response, effects and next state of a session's own request "
+             "depend on that session's state only (handle_local: the outcome it would obtain alone), and the state store seen through one "
+             "token is a one-cell machine that ignores every other token's operations (C18 isolation). What these models cannot exhibit — "
+             "data races, goroutine scheduling of the device pipeline, deadlocks — is exercised by a harness built with the Go race "
+             "detector: N = 2..64 devices of mixed key types, key exchanges and ciphers run DI, TO0, TO1, TO2 at the same instant against one "
+             "handler, one responder set and one SQLite store (single-connection and pooled), with injected delays and GOMAXPROCS 1/2/16, "
+             "tagged module streams to observe cross-session leakage, per-GUID effect accounting, goroutine-leak and hang monitors; the "
+             "device pipeline is run over all delay permutations of module / chunking / transport, with cancellation and transport failures; "
+             "race reports naming library frames become failures.",
+        note=COMMON_NOTE + "PARTIAL: isolation is proved for atomic requests; race freedom and absence of deadlock are runtime properties tested under "
+             "the race detector (schedules sampled, not enumerated).",
+        technique="Rocq proof (frame and locality theorems over interleaved histories; store isolation) + concurrency stress under the Go race detector",
+        design="4 (C19), 9"),
     "C20": dict(
         text="Machine-checked theorems over the executable model of protocol.parseDirective/parseURLs/cbor.ArrayShift built on the CBOR "
              "decoder model: totality for every instruction list and role, other-role directives yield the zero directive, invariance under "
